@@ -79,13 +79,15 @@ def norm_site(site):
 def finding_matches(f, prop, ob):
     if f.get('status') != 'open':
         return False
-    if f['property'] != prop or f['obligation'] != ob.oid:
+    props = f['property'] if isinstance(f['property'], list) else [f['property']]
+    obls = f['obligation'] if isinstance(f['obligation'], list) else [f['obligation']]
+    if prop not in props or ob.oid not in obls:
         return False
     if f.get('site') and f['site'] != norm_site(ob.site):
         return False
-    if f.get('path_contains'):
-        joined = ' / '.join(ob.path)
-        if not all(x in joined for x in f['path_contains']):
+    if f.get('path_contains_any'):
+        # each alternative is a list of decision labels that must all be on the path
+        if not any(all(x in ob.path for x in alt) for alt in f['path_contains_any']):
             return False
     return True
 
